@@ -16,16 +16,16 @@ CLAIMED = {
 CLAIMED.update({
  "C01": dict(
    technique="deterministic simulation: seeded schedule/fault search on a stub kernel, operation ledger",
-   text="Seeded search over mixes of every object kind sharing one IO (dialed/accepted conns, AsyncAdapter, FIFO ends, regular file, listener, packet conn, multicast peer) with an operation ledger: "
+   text="Seeded search over mixes of every object kind sharing one IO (dialed/accepted conns, AsyncAdapter, FIFO ends, regular file, listener, packet conn, multicast peer, a conn over a connected datagram socket) with an operation ledger: "
         "every completion callback is counted at entry (never twice, never after Close returned), Cancel must complete each deferred operation once with ErrCancelled, and at quiescence "
         "(faults off, peers satisfy every pending operation, loop polled) every operation on a never-closed object must have completed. Handlers cancel/close/re-arm themselves and other objects, "
-        "including ones later in the same epoll batch; batches are composed, permuted and truncated by the tape; peers send, half-close, close, reset and hang up. Directed: all ordered pairs of 7 object kinds x 3 cross-object actions x 2 batch orders.",
-   note="At most one read and one write in flight per object (sonic has one reactor per direction). Stub kernel semantics for epoll/pipe/TCP/UDP as in notes/kernel_facts.txt. Regular files are not started at the dispatch limit while the C14 known finding is open."),
+        "including ones later in the same epoll batch; batches are composed, permuted and truncated by the tape; peers send, half-close, close, reset and hang up; a datagram socket is announced readable with nothing to read; a connected datagram socket learns of a closed remote port as an asynchronous error (EPOLLERR alone); handlers may do two things; IO.Dispatched must be 0 after every poll. Directed: all ordered pairs of 7 object kinds x 3 cross-object actions x 2 batch orders.",
+   note="At most one read and one write in flight per object (sonic has one reactor per direction). Stub kernel semantics for epoll/pipe/TCP/UDP are compared with the live kernel by kconf (DESIGN 4.3). Regular files are not started at the dispatch limit while the C14 known finding is open."),
  "C02": dict(
    technique="deterministic simulation: seeded segmentation/partial-transfer search with a position-dependent byte generator",
    text="Stream objects (dialed, accepted, AsyncAdapter) against raw actor peers, both directions at once; socket buffer capacities drawn down to 1 byte, deliveries segmented, kernel short reads/writes, delays, peer FIN/close/RST in the middle of *All operations. "
         "Oracle: per-direction offset ledger with a position-dependent generator (any slice identifies its own offset): delivered bytes equal what the peer wrote at that offset, counts equal the bytes the stub kernel moved for that operation, "
-        "*All success implies the full length, on error n <= bytes moved, no error on a healthy stream, the peer verifies every byte it receives, conservation at quiescence.",
+        "*All success implies the full length, on error n <= bytes moved and - for reads - n == bytes moved (bytes taken out of the stream and not reported are lost); the adapter's reader may hand the last bytes over together with io.EOF and its writer may accept a prefix, no error on a healthy stream, the peer verifies every byte it receives, conservation at quiescence.",
    note="The kernel's per-descriptor byte counters are the independent observer. AsyncAdapter's peer always drains (net.Conn.Write blocks the loop by design)."),
  "C03": dict(
    technique="deterministic simulation: seeded history search with an in-flight ledger, RunPending under a quiescence detector",
@@ -36,7 +36,7 @@ CLAIMED.update({
  "C14": dict(
    technique="deterministic simulation: chains of immediately completable operations with a nesting counter",
    text="Chains (up to 10x the limit, hopping between objects) of operations that complete immediately on conns, FIFO ends, regular file, listener with queued connections, packet conn and multicast peer with queued datagrams. "
-        "The harness's own nesting counter must never exceed MaxCallbackDispatch+1, an operation started at the bound must be deferred and then complete with the data/connection it would have had inline, IO.Dispatched must be 0 whenever the stack is unwound.",
+        "The harness's own nesting counter must never exceed MaxCallbackDispatch+1, an operation started at the bound must be deferred and then complete with the data/connection it would have had inline, IO.Dispatched must be 0 whenever the stack is unwound. A third of the random runs are starved chains: the queues run dry, the operation re-issued from inside a completion is deferred and resumes from the poller.",
    note="No Cancel in these workloads. Regular files: open known finding (cannot be deferred through epoll)."),
 })
 CLAIMED["C05"] = dict(
@@ -52,13 +52,13 @@ CLAIMED["C18"] = dict(
         "Responses come from a grammar (status, reason phrase, header set/order/letter case/optional whitespace, right/wrong/missing accept key, missing or wrong Upgrade), are cut at tape-chosen offsets (directed: one cut walking through the whole response), "
         "carry 0-3 piggy-backed frames, and the server may close or reset after any byte. Oracle: the request parses (independent HTTP parser) with all mandated headers, a fresh 16-byte key and the caller's headers; success iff the independent evaluator of the three conditions says so; "
         "on failure State() is terminated, every read/write API refuses and nothing reaches the wire; after success the piggy-backed messages then later ones are delivered exactly; 1-3 handshakes per Stream with checks that nothing of an earlier session is read or written.",
-   note="Descriptor release after a failed handshake is judged by C13's census, not here. A reset during the response makes either outcome legitimate.")
+   note="After a failed handshake the client's end of the TCP connection must be closed (the descriptor census is C13's). A reset during the response makes either outcome legitimate. The transport may hand the end of the response over together with the end of the stream; servers that answer and close at once are a regular case.")
 CLAIMED["C06"] = dict(
    technique="deterministic simulation: generated conforming sessions under seeded fragmentation and segmentation, four read APIs, two transports",
    text="A simulated server (independent RFC 6455 encoder) sends message sequences with sizes spanning the 7/16/64-bit encodings up to the per-run maximum, fragmented at tape-chosen points with ping/pong between fragments; "
         "the byte stream is cut at tape-chosen offsets (directed: one or two cuts walking through every offset of short sessions), also together with the handshake response, and further segmented by the stub kernel. "
         "Transports: production stack (real Handshake, stub net.Conn, AsyncAdapter, stub TCP) and a scripted in-memory sonic.Stream with partial/deferred completions. Oracle: the delivered (type, length, payload) sequence equals the sent one for NextMessage, AsyncNextMessage, NextFrame and AsyncNextFrame (frames reassembled by the harness); control frames surface in order; PayloadLength equals len(Payload).",
-   note="Equality with the sent sequence under every API implies the differential clause. Sizes above 256 KiB are not generated.")
+   note="Equality with the sent sequence under every API implies the differential clause. Sizes above 256 KiB are not generated. Asynchronous reads are also re-issued from inside the completion; in a third of the random runs the peer ends the stream right behind its last frame and the transport may report that end together with the last bytes (as tls.Conn does).")
 CLAIMED["C07"] = dict(
    technique="deterministic simulation of the read path (CodecConn over a scripted transport) with in-transit corruption, differential against a reference decoder; plus exhaustive enumeration of the encoder/decoder product",
    text="Conforming frame streams are corrupted in transit (bit flips, rewritten length fields incl. 64-bit lengths with the top bit set and max+1, truncation, inserted garbage, pure random prefixes) and delivered under two tape-chosen segmentations (incl. byte-by-byte); "
@@ -75,38 +75,38 @@ CLAIMED["C16"] = dict(
    text="Histories of Write/AsyncWrite (0,1,125,126,65535,65536,max,max+1,random sizes so pooled frames are reused after longer and shorter ones; directed: all ordered pairs of 6 size classes), WriteFrame/AsyncWriteFrame with caller-built frames with and without SetPayload, "
         "pings that elicit automatic Pongs, Close, with the deterministic frame pool emptied at tape-chosen moments; transports: production stack with small send buffers/short writes and the scripted stream accepting 1..n bytes or deferring. "
         "Oracle: the complete outgoing byte stream parses (independent RFC 6455 parser) into exactly the submitted frames in order: mask bit, 4-byte key, un-masked payload equal to the caller's bytes, minimal length encoding, no trailing bytes; an over-max message returns an error and writes nothing.",
-   note="One application write in flight at a time here (overlapping writes are C17). A would-block from a synchronous Write is not generated. An all-zero masking key is not judged (the statement does not require unpredictability).")
+   note="Besides single writes: chains started from the previous completion, bursts of 3-6 writes submitted back to back, writes accepted in parts by the transport, and one asynchronous write failing with a transient error (the wire is then judged as an in-order subsequence of well-formed masked frames). A would-block from a synchronous Write is not generated. An all-zero masking key is not judged (the statement does not require unpredictability).")
 CLAIMED["C08"] = dict(
    technique="deterministic simulation: seeded histories of peer events and local calls checked against an executable RFC 6455 closing/ping state machine",
    text="Histories (<= 12 events, from every stage) of peer {data, ping, pong, valid close with/without code, close with invalid code / invalid UTF-8 / 1-byte payload, frame with reserved bits, transport EOF, reset} interleaved with local {NextFrame, AsyncNextFrame, NextMessage, AsyncNextMessage, Write, AsyncWrite, WriteFrame, Flush, Close, AsyncClose}, on both transports. "
         "A reference state machine consumes the same history (a frame counts when a read call consumes it) and says which frames must be on the wire: one Pong per Ping consumed while open, same payload, arrival order, ahead of later application frames; none for Pongs or after our Close; exactly one Close echoing the peer's code (1000 if none, 1002 if invalid) or ours; no data frame after it. "
-        "Reads must report end-of-stream after the closing handshake and io.EOF + a 1006 Close frame on unexpected EOF; writes and second closes must be refused; State() must lie in the set of stages the model allows.",
+        "Reads must report end-of-stream after the closing handshake and io.EOF + a 1006 Close frame on unexpected EOF; writes and second closes must be refused; State() must lie in the set of stages the model allows - also while an AsyncClose is still being written (state, refusal of writes and of a second Close are probed before it completes). Transports may report the end of the stream together with the last bytes; on the scripted transport one flush is made to fail once with the transport staying usable, after which the wire is judged as an in-order subsequence of the expected frames, each at most once.",
    note="Peer frames are single-frame messages so that each read call consumes a known number of frames. After a connection reset nothing is judged except that calls return and the wire stays a prefix of what the history called for. Transport EOF is a half-close.")
 CLAIMED["C17"] = dict(
    technique="deterministic simulation: seeded interleavings of peer events, application calls and poll cycles on the production transport stack, callback ledger + wire parser",
    text="Client Stream over the real AsyncAdapter on the stub kernel's TCP socket (send buffer capacity drawn per run). Tape-chosen interleavings of peer events (data, ping, pong, close) with AsyncNextFrame/AsyncNextMessage, AsyncWrite, AsyncWriteFrame, AsyncFlush, AsyncClose and poll cycles, "
         "in particular an application write started while the read path's automatic Pong/Close flush is still waiting for writability and a read started while a write is in flight (both counted by probes; 6 directed shapes). "
-        "Oracle: every callback exactly once by quiescence, each read with the peer's next frame/message, writes complete in submission order without error, the wire parses into whole frames with every submitted frame and every owed Pong exactly once, IO.Pending() returns to 0.",
-   note="At most one application read and one application write in flight; the second writer is always the read path's control-reply flush.")
+        "Oracle: every callback exactly once by quiescence, each read with the peer's next frame/message, writes complete in submission order without error, the wire parses into whole frames with every submitted frame and every owed Pong exactly once, IO.Pending() returns to 0. Up to four application writes are kept in flight, completion handlers start up to three further operations themselves, and a frame-carrying write may not complete before the transport has taken every application frame up to it; after the handshake the transport may accept writes in parts.",
+   note="Completion order is required to follow submission order for operations not started from inside a handler (a nested flush with nothing pending legitimately completes before an earlier write's waiter is notified).")
 CLAIMED["C19"] = dict(
    technique="deterministic simulation: seeded split/coalesce of a length-prefixed stream over the stub kernel's TCP, independent wire parser, hostile peer",
    text="CodecConn[[]byte,[]byte] with codec/frame.Codec over sonic conns: (a) an independent encoder writes and sonic reads with the stream cut at tape-chosen offsets (directed: one or two cuts walking through every offset of short streams, incl. inside the 4-byte prefix) and receive buffers down to 1 byte; "
         "(b) sonic writes (blocking and asynchronous, send buffers down to 7 bytes so would-block falls inside an item) and an independent parser reads the wire; (c) two CodecConns joined by simulated TCP; (d) a hostile peer sending conforming items followed by a declared length above the limit with no body, or junk. "
         "Oracle: exactly the written payloads, one per call, byte-identical, in order; the wire parses into exactly the written items once each; after a successful write the destination buffer is empty; an over-limit length yields an error while the source buffer has not grown toward it; no panic.",
-   note="Hostile prefixes are either above the 1 GiB limit or small: a prefix just below the limit would make the codec legitimately reserve up to 1 GiB and is not generated in this sandbox. A blocking WriteNext is given a send buffer that cannot fill (it cannot wait for writability by design).")
+   note="Hostile prefixes are either above the 1 GiB limit or small: a prefix just below the limit would make the codec legitimately reserve up to 1 GiB and is not generated in this sandbox. Half of the blocking-write runs use small send buffers: an item that hits would-block stays queued in the destination buffer, is not re-submitted, and must leave whole and once in front of the next item. Reads and writes are also chained from inside completion handlers.")
 CLAIMED["C12"] = dict(
    technique="deterministic simulation: seeded traffic/membership histories on a stub kernel with an interface table and Linux multicast filtering, abstract membership model as oracle",
    text="Packet conns and multicast peers (bind forms: empty host, port 0, interface address, group address; several peers on one port) with sender actors on different simulated interfaces and addresses; datagram sizes 1..65507, buffers shorter and longer than the datagram, "
         "loss, duplication, reordering, delay, small receive queues, EAGAIN/ENOBUFS on send; histories of Join/JoinOn/JoinSource/Leave/LeaveSource/BlockSource/UnblockSource/SetLoop/SetTTL/SetAll/SetOutboundIPv4/SetAsyncReadBuffer interleaved with traffic and pending reads, each option call failed once by injection. "
         "Oracle: one read completion per datagram the kernel queued, with exactly its bytes, n=min(len), the sender's IP and port; one emitted datagram per write with exactly the caller's bytes and destination (observed in the kernel); the datagrams the kernel queued for each socket equal what an abstract membership model (joined, not left, source admitted, not blocked, IP_MULTICAST_ALL) predicts; a re-designated read buffer receives the datagram; after every call each getter equals the kernel's option/name.",
-   note="The delivery rule of the stub follows net/ipv4/igmp.c (ip_mc_sf_allow, ip_check_mc) for the generated histories: one membership per group per socket, membership changes only while no datagram is in flight, source operations on the default device. Unicast is not sent to a port several sockets share. Open known finding: Loop() getter.")
+   note="The delivery rule of the stub follows net/ipv4/igmp.c (ip_mc_sf_allow, ip_check_mc) for the generated histories: one membership per group per socket, membership changes only while no datagram is in flight, with several sources per source-specific membership, on any interface (the delivery rule was compared with the live kernel on two real interfaces: kconf). Reads are re-armed from inside the completion; a socket is announced readable with nothing queued while a read is pending. Unicast is not sent to a port several sockets share. Open known finding: Loop() getter.")
 CLAIMED["C13"] = dict(
    category="fault_enumeration",
    technique="deterministic simulation with enumerated fault injection: every k-th kernel call of every kind of each constructor is failed; descriptor census by generation; GC injected at chosen instants",
    text="Fault enumeration over 12 constructors (NewIO, NewTimer, Dial tcp/udp, Listen, accept sync+async, NewPacketConn, NewUDPPeer, Open, websocket Handshake and AsyncHandshake, NewMirroredBuffer on the real kernel): the successful build is measured and every k-th call of every kind it makes is failed once (EMFILE at the k-th allocation for every k, realistic errnos otherwise), "
         "plus refused/unreachable/time-out/bind conflict/non-local bind/bad, truncated or wrong-key handshake response/server close or reset mid-handshake. The stub kernel's exact census (number:kind:generation) must be what it was before after a failure, and after Close of a success. "
         "Seeded exploration on top: repeated Close (and Cancel-after-Close, conn-close-after-adapter-close) on every object kind interleaved with creation of other objects so that numbers are reused - any close of a generation the object does not own is flagged; and GC at tape-chosen instants with reads and/or writes deferred after the program dropped every reference (weak pointer to a sentinel captured only by the callbacks), including between the completion of one direction and the other, with the completion required afterwards.",
-   note="Fault points are enumerated over the kernel calls the stub sees, not over Go allocations. Open known finding: Dial panics for descriptor numbers >= 1024 (select).")
+   note="Fault points are enumerated over the kernel calls the stub sees, not over Go allocations. Constructors are built with options so that every socket option is a fault point; one scenario reconnects from inside a completion handler (close, dial, deferred read on the reused descriptor number, no reference kept) before the collection. The stub net.Conn models RawConn.Control's descriptor reference (a Close inside the callback blocks, as on the live runtime).")
 CLAIMED["C09"] = dict(
    technique="model conformance over seeded call histories, with simulated readers/writers for the I/O methods (short, zero-byte and failing reads, short and failing writes, deferred completions)",
    text="Call histories over the whole public API (Write/WriteByte/WriteString, Claim, ClaimFixed, Commit, Consume, Save, Discard, DiscardAll, Reserve, ShrinkBy, ShrinkTo, PrepareRead, Read, ReadByte, ReadFrom, WriteTo, AsyncReadFrom, AsyncWriteTo, Reset) with integer arguments from the classes {MinInt, <0, 0, 1, avail-1, avail, avail+1, large, MaxInt}, growth across reallocation, and simulated transports for the I/O methods. "
